@@ -228,6 +228,36 @@ func genC16(r *rand.Rand, tier string, st *Stats) []Case {
 			}
 		}
 	}
+	// 1c. the literal next to a neighbour with other flags: directly after / before a `caseless` literal (in a sequence,
+	// in a group, in a stored pattern).  The caseless neighbour is spelled in upper case and occurs in lower case in the
+	// text; the literal under test must still match its own bytes exactly (the text also holds it with the letter case
+	// swapped, which must NOT match)
+	swap := func(x string) string {
+		b := []byte(x)
+		for i := range b {
+			switch {
+			case b[i] >= 'a' && b[i] <= 'z':
+				b[i] -= 32
+			case b[i] >= 'A' && b[i] <= 'Z':
+				b[i] += 32
+			}
+		}
+		return string(b)
+	}
+	for wi, w := range []string{"abc", "Ab", "zQ", "a", "x1y"} {
+		for qi, q := range []string{"'", "\""} {
+			for si, lit := range []string{q + w + q, q + fmt.Sprintf("\\x%02x", w[0]) + w[1:] + q} {
+				id := fmt.Sprintf("nb%d.%d.%d", wi, qi, si)
+				after, before := "id:"+w, w+"id:"
+				cases = append(cases, litCase(id+".after", "caseless \"ID:\" "+lit, after+" id:"+swap(w)+" "+after, after, "next-to-caseless"))
+				cases = append(cases, litCase(id+".before", lit+" caseless 'ID:'", before+" "+swap(w)+"id: "+before, before, "next-to-caseless"))
+				cases = append(cases, litCase(id+".group", "(caseless \"ID:\" "+lit+")", after+" id:"+swap(w), after, "next-to-caseless"))
+				cases = append(cases, Case{ID: id + ".stored", Op: "run", Fields: []string{hx("set p to pattern caseless 'ID:' " + lit + "\nfind all p"),
+					hx(after + " id:" + swap(w)), hx(after), "next-to-caseless"}, Meta: map[string]string{}})
+				st.Counts["next-to-caseless"] += 4
+			}
+		}
+	}
 	// 2. \x followed by 0, 1, 2 hex digits and arbitrary characters (all tails up to length 3 over a small alphabet)
 	alpha := []string{"a", "F", "4", "0", "Z", "g", "x", " ", "\\\\", "\\n", "\\x41", "\\x"}
 	var tails func(n int) []string
